@@ -38,10 +38,11 @@ from .coop import Coop, HarnessHang
 THEOREMS = [
     "MySensors.C20.callbacks_exact_step", "MySensors.C20.callbacks_exact",
     "MySensors.C20.callbacks_alternate",
-    "MySensors.C20.reconnect_follows_loss_partial", "MySensors.C20.reconnect_follows_loss_counterexample",
+    "MySensors.C20.reconnect_follows_loss", "MySensors.C20.reconnect_follows_loss_unfixed_counterexample",
+    "MySensors.C20.tcp_async_orderly_close_redials",
     "MySensors.C20.tcp_sync_orderly_close_unnoticed", "MySensors.C20.retry_until_success",
-    "MySensors.C20.quiet_after_stop_partial", "MySensors.C20.quiet_after_stop_counterexample",
-    "MySensors.C20.quiet_after_stop_sync", "MySensors.C20.connect_after_disconnect_crashes",
+    "MySensors.C20.quiet_after_stop", "MySensors.C20.quiet_after_stop_unfixed_counterexample",
+    "MySensors.C20.connect_after_disconnect_crashes",
     "MySensors.C20.watchdog_no_false_drop", "MySensors.C20.watchdog_no_false_drop_periodic",
     "MySensors.C20.watchdog_async_small_rt_drops", "MySensors.C20.watchdog_drop",
     "MySensors.C20.async_silent_from_connect", "MySensors.C20.drop_redials",
@@ -1012,7 +1013,7 @@ def gen_sequences(tier, rng):
         for L in range(0, 5):
             seqs += [list(s) for s in itertools.product(EVENTS, repeat=L)]
         seqs += [list(s) for s in itertools.product(CORE_EVENTS, repeat=5)]
-        extra = 20000
+        extra = 8000
         maxlen = 12
     weights = [5, 3, 1, 2, 2, 2, 2, 1, 1, 1, 1]
     for _ in range(extra):
@@ -1075,7 +1076,7 @@ def run(tier, seed, driver):
         res.count("check:" + r.split()[-1])
     # ---- B: watchdog timing -----------------------------------------------------------------
     wd = []
-    rtl = [200, 300] if tier == "quick" else [200, 300, 500, 1000]
+    rtl = [200, 300] if tier == "quick" else [200, 300, 500]
     for rt in rtl:
         grid = list(range(0, rt + 41, 10 if tier == "thorough" else 20))
         pats = [[], [0], [rt - 80], [rt - 80] * 12, [0, rt - 80] * 6, [rt - 80, 0] * 6, [0] * 3 + [None]]
@@ -1130,7 +1131,7 @@ def run(tier, seed, driver):
     res.exhaustive = True
     res.rule = ("A: all event sequences over 11 events up to length 3 (quick) / 4 + 8 core events length 5 "
                 "(thorough) + seeded random up to length 9/12, for each of the four gateway classes, rt 1000 and "
-                "250 ms; B: check_connection on boundary timer values; watchdog runs for rt in {200,300[,500,1000]} ms, "
+                "250 ms; B: check_connection on boundary timer values; watchdog runs for rt in {200,300[,500]} ms, "
                 "latency patterns on a 20/10 ms grid up to rt+40 (constant, alternating with 0, random with "
                 "losses), pump phases {0,10[,5,15]} ms and both tie orders; non-trivial = a connection was made / "
                 "distinct watchdog configuration")
@@ -1156,8 +1157,9 @@ def run(tier, seed, driver):
                 elif c[0] == "wd":
                     mm = ",".join(x for x in m.split(",") if not x.endswith(":h")) or "-"
                     rr = ",".join(x for x in r.split(",") if not x.endswith(":h")) or "-"
-                    mh = [x for x in m.split(",") if x.endswith(":h")]
-                    rh = [x for x in r.split(",") if x.endswith(":h")]
+                    # several answers handled in one pump tick refresh the timer once per tick
+                    mh = list(dict.fromkeys(x for x in m.split(",") if x.endswith(":h")))
+                    rh = list(dict.fromkeys(x for x in r.split(",") if x.endswith(":h")))
                     if mm != rr or (c[1] == "sync" and mh != rh):
                         res.corr_diffs.append({"name": "watchdog-" + c[1], "case": op, "model": m, "impl": r})
                 else:
